@@ -176,7 +176,7 @@ def check(res, tier, seed):
             res.violation("bcast-monitor:" + r["violates"].split(":")[0][:40], "implementation violates C19 on a concrete schedule: " + r["violates"],
                           dict(kind="bcast", progs=r["progs"], schedule=schedule_of(r), trace=r["trace"], panic=r.get("panic")))
     # real-scheduler stress of windows that have no yield point (search only)
-    srecs, src, sout = C.run_job(binary, wd, "stress", dict(family="bcast-stress", seed=seed, n=(60000 if tier == "quick" else 1500000)), timeout=600)
+    srecs, src, sout = C.run_job(binary, wd, "stress", dict(family="bcast-stress", seed=seed, n=(60000 if tier == "quick" else 1500000), params=dict(budget_s=(40 if tier == "quick" else 150))), timeout=900)
     for sr in srecs:
         res.coverage["stress_iterations"] = sr.get("iterations")
         res.coverage["stress_outcomes"] = sr.get("kinds")
